@@ -91,6 +91,8 @@ class Ctx(object):
             if b is None:
                 raise Unsupported('no such function %s' % body)
             body = b
+        if body.errors:
+            raise Unsupported('function %s contains a MIR construct the front end does not understand: %s' % (body.sname, body.errors[0][:160]))
         ex = ex or self.new_exec()
         st = State()
         st.pc = list(pc)
